@@ -202,7 +202,7 @@ fn ref_request_line(line: &[u8]) -> (u8, usize, usize) {
     (0, sp1, sp2)
 }
 
-// @harness props=C02,C03 props_thorough=C14 tiers=quick:N=6|N=14|N=16;thorough:N=0|N=1|N=2|N=3|N=4|N=5|N=6|N=7|N=8|N=9|N=10|N=11|N=12|N=13|N=14|N=15|N=16|N=17 unwind=N+2 cap=1500 mem=4
+// @harness props=C02,C03 props_thorough=C14 tiers=quick:N=6|N=14|N=16;thorough:N=0|N=1|N=2|N=3|N=4|N=5|N=6|N=7|N=8|N=9|N=10|N=11|N=12|N=13|N=14|N=15|N=16|N=17 unwind=N+2 cap=1500 mem=3
 // @fn RequestLine::try_from RequestLine::parse_request_line Method::try_from Uri::try_from Version::try_from request::find
 // @claim the real request-line parser accepts exactly `METHOD SP URI SP VERSION` (METHOD in GET/PUT/PATCH, URI non-empty valid UTF-8 without SP, VERSION HTTP/1.0|1.1) with method, URI bytes and version delivered verbatim; otherwise the error kind names the first offending element in the order shape, method, URI, version
 // @bounds every byte string of length exactly N (all bytes symbolic), one query per N
@@ -237,7 +237,7 @@ fn c02_request_line() {
     std::mem::forget(r);
 }
 
-// @harness props=C16,C03 tiers=quick:N=5,M=0|N=11,M=1;thorough:N=0,M=0|N=1,M=0|N=2,M=0|N=3,M=0|N=5,M=0|N=7,M=0|N=8,M=0|N=9,M=0|N=8,M=1|N=9,M=1|N=10,M=1|N=11,M=1|N=12,M=1 unwind=N+2 cap=1500 mem=4
+// @harness props=C16,C03 tiers=quick:N=5,M=0|N=11,M=1;thorough:N=0,M=0|N=1,M=0|N=2,M=0|N=3,M=0|N=5,M=0|N=7,M=0|N=8,M=0|N=9,M=0|N=8,M=1|N=9,M=1|N=10,M=1|N=11,M=1|N=12,M=1 unwind=N+2 cap=1500 mem=2
 // @fn Uri::get_abs_path
 // @claim abs_path is the URI itself if it starts with '/', the part from the first '/' after the authority for http://authority/..., empty otherwise; the result is a sub-slice of the URI (same bytes, same position)
 // @bounds every valid-UTF-8 URI of exactly N bytes; with M=1 the first 7 bytes are the concrete prefix `http://` and the remaining N-7 are symbolic
@@ -312,7 +312,7 @@ fn ref_find_seq(s: &[u8], from: usize, pat: &[u8]) -> Option<usize> {
     None
 }
 
-// @harness props=C14,C03 tiers=quick:N=22;thorough:N=18|N=20|N=22|N=24 unwind=N+2 cap=2400 mem=4
+// @harness props=C14,C03 tiers=quick:N=22;thorough:N=18|N=20|N=22|N=24 unwind=N+2 cap=2400 mem=3
 // @fn Request::try_from request::find RequestLine::min_len
 // @claim one-shot framing == reference splitter: reject if len>=max; request line = bytes up to the first CRLF (>= 14 bytes) handed to the line parser; first CRLFCRLF at or after it ends the header block, which is handed over exactly; body must be exactly Content-Length bytes, a GET must not declare one; without a declared length trailing bytes are ignored; no panic on any input (headers_end - CRLF_LEN, len - crlf_end and all slices)
 // @bounds every input of exactly N bytes (all symbolic); max_len None or Some(symbolic); request-line and header-block content parsers replaced by surrogates
